@@ -794,6 +794,9 @@ def cond_atoms(T, n, positive=True):
         return []
     if k == "Let":
         return []
+    # anyhow's `ensure!(c)` tests `__private::not(c)`: a negation written as a call
+    if k == "Call" and len(n.get("args", [])) == 1 and (cname(T.F, n) or "").endswith("__private::not"):
+        return cond_atoms(T, n["args"][0], not positive)
     t = T.term(n)
     return term_cond_atoms(t, positive)
 
@@ -1118,6 +1121,12 @@ class Walker:
                 if self.walk(n["init"], K):
                     return True
                 term = self.T.term(n["init"])
+                if term[0] == "unk" and n["init"].get("k") == "Block" and n["init"].get("stmts") and "expr" in n["init"] and not any(x.get("k") in ("Ret", "Break", "Continue") for x in walk(n["init"])):
+                    # a block whose statements have just been walked (their effects are in the environment): its
+                    # value is its tail expression as it stands now
+                    tail = self.T.term(n["init"]["expr"])
+                    if tail[0] != "unk":
+                        term = tail
                 if "els" in n:
                     saved = dict(self.T.env)
                     self.walk(n["els"], K.copy())
@@ -1546,6 +1555,18 @@ class Walker:
                 K.add(cmp_atoms(">=", v, T.term(lo)))
             if hi is not None:
                 K.add(cmp_atoms("<=" if incl else "<", v, T.term(hi)))
+            return
+        # `for (a, b) in (lo..hi).zip(lo2..)`: each component ranges over its own range (the shorter one ends the loop)
+        if it.get("k") == "MethodCall" and it["name"] == "zip" and pat.get("k") == "PTuple" and len(pat["ps"]) == 2 and len(it.get("args", [])) == 1:
+            for comp, src in ((pat["ps"][0], it["recv"]), (pat["ps"][1], it["args"][0])):
+                r = range_of(F, src) if src.get("k") == "Struct" else None
+                if r is not None and comp.get("k") == "PBind":
+                    lo, hi, incl = r
+                    v = ("var", comp["name"], comp["id"])
+                    if lo is not None:
+                        K.add(cmp_atoms(">=", v, T.term(lo)))
+                    if hi is not None:
+                        K.add(cmp_atoms("<=" if incl else "<", v, T.term(hi)))
             return
         ELEM = ("iter", "iter_mut", "copied", "cloned", "as_ref", "into_iter", "as_mut", "par_iter")
         chain = method_chain(F, it)
